@@ -147,13 +147,12 @@ func extractFirstBytesRecursive(re *syntax.Regexp, result *FirstByteSet, depth i
 		}
 		return true
 
-	case syntax.OpBeginLine, syntax.OpBeginText:
-		// Anchors don't consume bytes, skip to next
-		return true
-
-	case syntax.OpEndLine, syntax.OpEndText:
-		// End anchors: pattern could match at end, need to check next part
-		return true
+	case syntax.OpBeginLine, syntax.OpBeginText, syntax.OpEndLine, syntax.OpEndText:
+		// An assertion that stands alone (a whole alternation branch, a whole
+		// group) consumes nothing: the branch can match without a first byte, so
+		// the first byte of a match is unconstrained. Assertions in front of other
+		// elements are skipped by the OpConcat case below.
+		return false
 
 	case syntax.OpCapture:
 		// Capture group: recurse into content
@@ -165,8 +164,10 @@ func extractFirstBytesRecursive(re *syntax.Regexp, result *FirstByteSet, depth i
 	case syntax.OpConcat:
 		// Concatenation: find first non-anchor part
 		for _, sub := range re.Sub {
-			// Skip anchors
-			if sub.Op == syntax.OpBeginLine || sub.Op == syntax.OpBeginText {
+			// Skip zero-width assertions: the first byte comes from what follows
+			switch sub.Op {
+			case syntax.OpBeginLine, syntax.OpBeginText, syntax.OpEndLine, syntax.OpEndText,
+				syntax.OpWordBoundary, syntax.OpNoWordBoundary:
 				continue
 			}
 			return extractFirstBytesRecursive(sub, result, depth+1)
